@@ -30,6 +30,7 @@ use crate::mon::{guard, h2, hstr, par_shards, Ctx, Local, Outcome, Report, Tier}
 use crate::refcal as rc;
 use crate::refinst::{self as ri, RDt};
 use crate::rng::Rng;
+use crate::zones::{NamedTz, ZONE_NAME};
 use chrono::format::StrftimeItems;
 use chrono::{DateTime, FixedOffset, NaiveDate, NaiveDateTime, NaiveTime, TimeZone, Utc};
 use serde_json::{json, Value};
@@ -304,6 +305,8 @@ struct Fields {
     is_utc: bool,
     ts: i64,
     headroom: bool,
+    /// name shown by `%Z` when the zone's offset type displays a name (user-defined zone)
+    zname: Option<&'static str>,
 }
 
 fn fields_of(v: &V) -> Fields {
@@ -336,6 +339,7 @@ fn fields_of(v: &V) -> Fields {
         is_utc: v.kind == Kind::Utc,
         ts: (v.day - rc::UNIX_EPOCH_DAY) * 86_400 + v.secs,
         headroom: has & NEED_D != 0 && !rc::in_range_day(wday),
+        zname: None,
     }
 }
 
@@ -630,6 +634,8 @@ fn render_spec(t: &str, md: Md, f: &Fields) -> Result<Vec<Alts>, &'static str> {
             }
             vec![v]
         }
+        "Z" if f.zname.is_some() => one(f.zname.unwrap_or("").to_string()),
+        "Z" if f.is_utc => one("UTC".to_string()),
         "Z" => {
             let mut v = vec![off_display(f)];
             v.extend(off_minute_alts(f.off, true));
@@ -753,6 +759,7 @@ const BASE_BUCKETS: &[&str] = &[
     "several_renderings_accepted",
     "route_write_to", "route_items",
     "walk_dates", "walk_seconds", "walk_offsets", "product", "random_single", "random_string",
+    "carrier_user_zone_with_name", "carrier_deprecated_Date_FixedOffset", "carrier_deprecated_Date_Utc", "carrier_deprecated_Date_user_zone",
 ];
 
 /// Buckets that need not be observed (everything else is floor).
@@ -1819,6 +1826,139 @@ fn random_strings(ctx: &Ctx, rep: &Report, x: &Ix, c: &Cat) {
     });
 }
 
+
+// ------------------------------------------------------------------------------------------------
+// Other carriers: a user-defined zone whose offset displays a name, and the deprecated `Date<Tz>`.
+// (Lenient items, `StrftimeItems::new_lenient`, are deliberately not judged here: the property says
+// an unknown specifier makes formatting fail, lenient mode is the documented opt-out and its output
+// text is not described by the property; C15 drives it for panic-freedom.)
+// ------------------------------------------------------------------------------------------------
+
+fn compare_text(loc: &mut Local, sig: &str, v: &V, fmt: &str, exp: &Exp, got: Result<Result<String, ()>, crate::mon::PanicInfo>) {
+    match got {
+        Err(p) => loc.violation(&format!("C12/{}/panic@{}", sig, p.site()), json!({"value": v.j(), "format": fmt, "panic": p.to_json()})),
+        Ok(r) => match (exp, r) {
+            (Exp::Fail(reason, _), Ok(text)) => loc.violation(&format!("C12/{}/printed-text-instead-of-failing/{}", sig, reason), json!({"value": v.j(), "format": fmt, "observed": text})),
+            (Exp::Fail(..), Err(())) => {}
+            (Exp::Text(parts), Ok(text)) => {
+                if !matches(parts, &text) {
+                    loc.violation(&format!("C12/{}/wrong-text", sig), json!({"value": v.j(), "format": fmt, "expected": show_expected(parts), "observed": text}));
+                }
+            }
+            (Exp::Text(parts), Err(())) => loc.violation(&format!("C12/{}/failed-though-all-fields-present", sig), json!({"value": v.j(), "format": fmt, "expected": show_expected(parts)})),
+        },
+    }
+}
+
+#[allow(deprecated)]
+fn alt_carriers(ctx: &Ctx, rep: &Report, c: &Cat) {
+    let (b_named, b_dfix, b_dutc, b_dnamed) = (
+        bidx("carrier_user_zone_with_name"),
+        bidx("carrier_deprecated_Date_FixedOffset"),
+        bidx("carrier_deprecated_Date_Utc"),
+        bidx("carrier_deprecated_Date_user_zone"),
+    );
+    let total = ctx.n(600_000, 20_000_000);
+    let n_shards = 128usize;
+    let per = (total / n_shards as u64).max(1);
+    let date_off_toks: Vec<Tok> = c.for_kind[Kind::Fixed as usize].iter().filter(|t| matches!(t, Tok::Sp(i, _) if SPECS[*i].need & NEED_T == 0)).cloned().collect();
+    par_shards(rep, ctx.threads, n_shards, |shard| {
+        let mut rng = Rng::new(ctx.seed, "C12/carriers", shard as u64);
+        let mut loc = rep.local();
+        let mut toks: Vec<Tok> = Vec::with_capacity(10);
+        for _ in 0..per {
+            let which = rng.below(2);
+            let kind = if rng.chance(1, 4) { Kind::Utc } else { Kind::Fixed };
+            let v = random_value(&mut rng, kind, c);
+            let f = fields_of(&v);
+            let Some(cv) = to_chrono(&v) else { continue };
+            let n = rng.range(1, 8) as usize;
+            toks.clear();
+            match which {
+                // --- DateTime in a user-defined zone whose offset displays a name
+                0 => {
+                    for _ in 0..n {
+                        toks.push(if rng.chance(1, 3) { sp("Z", Md::No) } else if rng.chance(1, 4) { lit(*rng.pick(LITERALS)) } else { rng.pick(&c.for_kind[Kind::Fixed as usize]).clone() });
+                    }
+                    if !allowed(&toks, &f) {
+                        continue;
+                    }
+                    let fmt = fmt_string(&toks);
+                    let (CV::F(_) | CV::U(_)) = &cv else { continue };
+                    let utc = match &cv {
+                        CV::F(d) => d.naive_utc(),
+                        CV::U(d) => d.naive_utc(),
+                        _ => continue,
+                    };
+                    let dn = NamedTz(v.off as i32).from_utc_datetime(&utc);
+                    let fz = Fields { zname: Some(ZONE_NAME), is_utc: false, ..f };
+                    loc.eval();
+                    loc.bucket(b_named);
+                    let got = guard(|| {
+                        let mut s = String::new();
+                        write!(&mut s, "{}", dn.format(&fmt)).map(|_| s).map_err(|_| ())
+                    });
+                    compare_text(&mut loc, "DateTime<user zone with named offset>::format", &v, &fmt, &expect(&toks, &fz), got);
+                    loc.nontrivial(h2(hstr(&fmt), v.hash()));
+                }
+                // --- deprecated Date<Tz>: date and offset specifiers only
+                1 => {
+                    if f.headroom {
+                        continue;
+                    }
+                    for _ in 0..n {
+                        toks.push(if rng.chance(1, 3) { sp("Z", Md::No) } else if rng.chance(1, 4) { lit(*rng.pick(LITERALS)) } else { rng.pick(&date_off_toks).clone() });
+                    }
+                    if rng.chance(1, 12) {
+                        // a time specifier must fail: a Date has no time of day
+                        toks.push(sp(*rng.pick(&["H", "M", "S", "T", "s", "+", ".3f"]), Md::No));
+                    }
+                    if !allowed(&toks, &f) {
+                        continue;
+                    }
+                    let fmt = fmt_string(&toks);
+                    let fd = Fields { has: NEED_D | NEED_O, ..f };
+                    let run = |s: &mut String, r: std::fmt::Result| r.map(|_| std::mem::take(s)).map_err(|_| ());
+                    loc.eval();
+                    match &cv {
+                        CV::F(d) => {
+                            loc.bucket(b_dfix);
+                            let got = guard(|| {
+                                let mut s = String::new();
+                                let r = write!(&mut s, "{}", d.date().format(&fmt));
+                                run(&mut s, r)
+                            });
+                            compare_text(&mut loc, "Date<FixedOffset>::format", &v, &fmt, &expect(&toks, &fd), got);
+                            loc.eval();
+                            loc.bucket(b_dnamed);
+                            let dn = NamedTz(v.off as i32).from_utc_datetime(&d.naive_utc());
+                            let fz = Fields { zname: Some(ZONE_NAME), ..fd };
+                            let got = guard(|| {
+                                let mut s = String::new();
+                                let r = write!(&mut s, "{}", dn.date().format(&fmt));
+                                run(&mut s, r)
+                            });
+                            compare_text(&mut loc, "Date<user zone with named offset>::format", &v, &fmt, &expect(&toks, &fz), got);
+                        }
+                        CV::U(d) => {
+                            loc.bucket(b_dutc);
+                            let got = guard(|| {
+                                let mut s = String::new();
+                                let r = write!(&mut s, "{}", d.date().format(&fmt));
+                                run(&mut s, r)
+                            });
+                            compare_text(&mut loc, "Date<Utc>::format", &v, &fmt, &expect(&toks, &fd), got);
+                        }
+                        _ => continue,
+                    }
+                    loc.nontrivial(h2(hstr(&fmt), v.hash() ^ 1));
+                }
+                _ => continue,
+            }
+        }
+    });
+}
+
 pub fn run(ctx: &Ctx) -> Outcome {
     let names = bucket_names();
     let floor: Vec<&'static str> = names.iter().copied().filter(|n| !NOT_FLOOR.contains(n)).collect();
@@ -1838,6 +1978,7 @@ pub fn run(ctx: &Ctx) -> Outcome {
     walk_offsets(ctx, &rep, &x);
     random_single(ctx, &rep, &x, &c);
     random_strings(ctx, &rep, &x, &c);
+    alt_carriers(ctx, &rep, &c);
     let _ = RDt::new(0, 0, 0);
     rep.finish(
         ctx,
